@@ -1,0 +1,16 @@
+//go:build verif
+
+package meta
+
+// Contracts for the govc verifier (see /verif/DESIGN.md). Comment-only: declares nothing.
+
+//@ func (TaskState).String
+//@   props C11
+//@   modifies nothing
+//@   panics never
+
+//@ func (TaskState).IsValidTaskState
+//@   props C11
+//@   ensures result == (t == TaskStateInitial || t == TaskStateRunning || t == TaskStatePaused)
+//@   modifies nothing
+//@   panics never
